@@ -145,9 +145,20 @@ def aware(epoch, zone, wall, off):
     return dt
 
 
+def user_inputs(inp, sid):
+    """Unclaimed sessions carry userInputs = None; claimed ones a list of what the driver typed into the app (the requested
+    energy, miles and departure are the driver's wishes: the session's energy is what was DELIVERED, kWhDelivered)."""
+    if (inp["conn"] + inp["kwh"]) % 3 == 0:
+        return None
+    return [{"userID": 7, "milesRequested": 60, "WhPerMile": 400, "minutesAvailable": 300, "kWhRequested": 24.0,
+             "modifiedAt": http_date(inp["conn"] + 120), "paymentRequired": True,
+             "requestedDeparture": http_date(inp["conn"] + 18000)}]
+
+
 def make_doc(cfg, inp, out, sid):
     return {"_id": "id-" + sid, "sessionID": sid, "spaceID": "CA-" + sid, "stationID": "2-39-" + sid,
-            "siteID": "0002", "clusterID": "0039", "timezone": cfg["zone"]["name"], "userID": None, "userInputs": None,
+            "siteID": "0002", "clusterID": "0039", "timezone": cfg["zone"]["name"],
+            "userID": None if user_inputs(inp, sid) is None else "000000007", "userInputs": user_inputs(inp, sid),
             "connectionTime": aware(inp["conn"], cfg["zone"]["name"], out["connWall"], out["connOff"]),
             "disconnectTime": aware(inp["disc"], cfg["zone"]["name"], out["discWall"], out["discOff"]),
             "doneChargingTime": None, "kWhDelivered": inp["kwh"] / KWH}
